@@ -25,7 +25,7 @@ ASSUMPTIONS = [
     "operator order inside a tick is taken from the log of state-change requests (a wrapper around PipelineRuntimeStatus.transition installed by the harness)",
     "a parent listed twice for one node is outside the statement (never generated)",
 ]
-FLOORS = {"probe_parent_suspending": 3, "probe_parent_running": 3, "dag_multi_parent": 0.2, "child_started": (0.2, "sim"), "sched_verif-tape": (0.2, "sim"), "bad_start_rejected": (0.01, "sim")}
+FLOORS = {"probe_with_8plus_parents_done_and_one_unfinished": 10, "probe_parent_suspending": 3, "probe_parent_running": 3, "dag_multi_parent": 0.2, "child_started": (0.2, "sim"), "sched_verif-tape": (0.2, "sim"), "bad_start_rejected": (0.01, "sim")}
 SCHEDS = ["naive", "priority", "priority-pool", "overbook", "starter", "verif-tape", "verif-tape", "verif-tape"]
 
 
@@ -58,6 +58,21 @@ def case(draw, tier):
             ops = [{"parents": [i - 1] if i else [], "segs": [{"cpu": (draw(st.integers(0, 3)) + 0.5) / tps, "law": "const",
                                                               "mem": 10 * ram_pool if i == failing else 0.01, "read": 0.0}]}
                    for i in range(n)]
+            if draw(st.integers(0, 1)) == 0:
+                # wide fan-in: 9-14 roots of very different lengths and one sink that lists them in a drawn order; the probe
+                # tries to start the sink while some (often only one or two) of its parents are unfinished
+                nroots = draw(st.integers(9, 14))
+                long_ones = set(draw(st.lists(st.integers(0, nroots - 1), min_size=1, max_size=3)))
+                ops = [{"parents": [], "segs": [{"cpu": ((12 if i in long_ones else draw(st.integers(0, 2))) + 0.5) / tps, "law": "const",
+                                                 "mem": 0.01, "read": 0.0}]} for i in range(nroots)]
+                order = list(draw(st.permutations(range(nroots))))
+                if draw(st.booleans()):
+                    order = [i for i in order if i not in long_ones] + [i for i in order if i in long_ones]   # the slow parents listed last
+                ops.append({"parents": order, "segs": [{"cpu": 0.5 / tps, "law": "const", "mem": 0.01, "read": 0.0}]})
+                c["probe"]["min_done"] = nroots - len(long_ones)
+                c["params"]["cpus_per_pool"] = draw(st.sampled_from([16, 8, 32]))
+                c["probe"]["ram"] = round(ram_pool * 0.02, 6)
+                c["probe"]["round"] = draw(st.integers(2, 12))
             c["arrivals"] = [[0, {"prio": 3, "ops": ops}] for _ in range(draw(st.integers(1, 2)))] + c["arrivals"][:2]
             c["arrivals"].sort(key=lambda a: a[0])
         if mode == 0:
@@ -103,6 +118,8 @@ def run_case(spec):
             if mv[0] == "probe":
                 for stt in mv[2]:
                     out.label("probe_parent_" + stt)
+                if len(mv) > 3 and mv[3] >= 8:
+                    out.label("probe_with_8plus_parents_done_and_one_unfinished")
     if rec.exception is not None:
         out.label("run_ended_with_error")
         if not tape:
